@@ -109,6 +109,17 @@ fn org_programs(full: bool) -> Vec<String> {
 /// Images of every size 0..=300, each construction separately.
 fn size_programs() -> Vec<String> {
     let mut v = vec![];
+    // every size that fits the RAM x every stack-size and program-size setting
+    for n in 0..=240usize {
+        for st in ["", "*STACKSIZE 0\n", "*STACKSIZE 16\n", "*STACKSIZE 32\n", "*STACKSIZE 48\n", "*STACKSIZE 64\n", "*STACKSIZE NOSET\n"] {
+            for pr in ["", "*PROGRAMSIZE AUTO\n", "*PROGRAMSIZE NOSET\n", "*PROGRAMSIZE 0\n", "*PROGRAMSIZE 255\n"] {
+                if n % 16 > 1 && n % 16 < 15 && !(st.is_empty() && pr.is_empty()) && n < 190 {
+                    continue; // the full product for sizes near multiples of 16 and everything >= 190
+                }
+                v.push(format!("{}{}{}{}", HDR, st, pr, db_fill(n)));
+            }
+        }
+    }
     for n in 0..=300usize {
         v.push(format!("{}{}", HDR, db_fill(n)));
         v.push(format!("{}{}END:\n JR END\n", HDR, db_fill(n)));
